@@ -1,8 +1,6 @@
 package core
 
 import (
-	"fmt"
-	"os"
 	"go/token"
 	"go/types"
 
@@ -205,9 +203,6 @@ func (z *Zone) ProveLE(a, b ssa.Value, c int64) bool {
 		z.node(k)
 	}
 	z.close()
-	if os.Getenv("FPDEBUG") != "" {
-		fmt.Println("ZONE", z.idx, z.d, "pos", pos, "neg", neg, "c", c, "off", off)
-	}
 	c -= off
 	switch {
 	case len(pos) == 0 && len(neg) == 0:
